@@ -14,6 +14,7 @@ import (
 	"runtime"
 	"runtime/metrics"
 	"strings"
+	"sync"
 	"sync/atomic"
 	"testing"
 	"time"
@@ -265,6 +266,15 @@ var wd struct {
 	limit atomic.Uint64
 	bud   atomic.Uint64
 	entry atomic.Value
+	mu    sync.Mutex // held by the watchdog from its decision to the exit, and by the call when it disarms
+}
+
+// disarm ends the watched window. If the watchdog has already decided to stop this call, disarm never
+// returns (the process exits), so the death is attributed to the call that overran.
+func disarm() {
+	wd.mu.Lock()
+	wd.start.Store(0)
+	wd.mu.Unlock()
 }
 
 func heapAllocs(s []metrics.Sample) uint64 { metrics.Read(s); return s[0].Value.Uint64() }
@@ -284,11 +294,26 @@ func allocWatchdog() {
 		if now <= st {
 			continue
 		}
-		if got := now - st; got > wd.limit.Load() && wd.start.Load() == st {
+		if got := now - st; got > wd.limit.Load() {
+			// dump first (the call is still running), then commit under the lock
 			buf := make([]byte, 1<<20)
 			n := runtime.Stack(buf, true)
+			wd.mu.Lock()
+			if wd.start.Load() != st {
+				wd.mu.Unlock()
+				continue
+			}
+			// the goroutine inside the guarded call first, as in a runtime crash dump
+			var head, rest []string
+			for _, g := range strings.Split(string(buf[:n]), "\n\n") {
+				if strings.Contains(g, "core.(*Ctx).Guard") {
+					head = append(head, g)
+				} else if !strings.Contains(g, "allocWatchdog") {
+					rest = append(rest, g)
+				}
+			}
 			fmt.Fprintf(os.Stderr, "fatal error: out of memory (verif allocation watchdog: %v had allocated %d bytes and was still running; budget %d bytes)\n\n%s\n",
-				wd.entry.Load(), got, wd.bud.Load(), buf[:n])
+				wd.entry.Load(), got, wd.bud.Load(), strings.Join(append(head, rest...), "\n\n"))
 			os.Exit(2)
 		}
 	}
@@ -571,7 +596,7 @@ func run(c *core.Ctx) {
 		}
 		bigScratch := false
 		for _, m := range cs.muts {
-			if strings.HasSuffix(m.field, "@high") && (m.val == "1MiB" || m.val == "16MiB" || m.val == "64MiB-12KiB") {
+			if strings.HasSuffix(m.field, "@high") && (m.val == "1MiB" || m.val == "16MiB" || m.val == "64MiB-12KiB" || m.val == "1..8MiB") {
 				bigScratch = true
 			}
 		}
@@ -597,8 +622,10 @@ func run(c *core.Ctx) {
 			wd.limit.Store(b.Alloc + allocStopAt)
 			wd.start.Store(heapAllocs(ms) | 1)
 			var err error
-			m := c.Guard(i, e.name, gname, b, func() { err = e.call(fw, &cs.opts) })
-			wd.start.Store(0)
+			m := c.Guard(i, e.name, gname, b, func() {
+				defer disarm()
+				err = e.call(fw, &cs.opts)
+			})
 			if m.Panicked {
 				c.Cell("%s|%s|PANIC", cellKey, e.name)
 				c.Count("panic/"+e.name, 1)
